@@ -640,8 +640,12 @@ func propC15(w *World, r *Report) {
 			r.Check(okEnv, "A5", "the background pixel is lowered to the input whenever input - weight < background (so it is never warmer than a non-FFC frame minus its weight)", w.InstrPos(a.Instr), strings.Join(got, " ∨ "))
 		}
 	}
-	// weights only 0 or w+0.1 (capped)
-	for _, b := range k.updateBg.Blocks {
+	// weights only 0 or w+0.1 (capped) — in the background update or in a method split off it
+	var wBlocks []*ssa.BasicBlock
+	for _, f := range bgFuncs {
+		wBlocks = append(wBlocks, f.Blocks...)
+	}
+	for _, b := range wBlocks {
 		for _, in := range b.Instrs {
 			st, ok := in.(*ssa.Store)
 			if !ok {
